@@ -19,7 +19,10 @@ EPS = st.one_of(
 
 @st.composite
 def ttl_case(draw, broker):
-    ttl_us = draw(st.one_of(st.integers(1, 60).map(lambda s: s * 1_000_000), st.integers(1_000_000, 60_000_000)))
+    # (Job refuses a ttl below one second, Parameters - what a foreign producer or the broker API sends - does not: 0 and
+    #  sub-second values are time-to-live values like any other)
+    ttl_us = draw(st.one_of(st.integers(1, 60).map(lambda s: s * 1_000_000), st.integers(1_000_000, 60_000_000),
+                            st.sampled_from([0, 1, 500_000])))
     kind = draw(st.sampled_from(["immediate", "immediate", "delayed-before", "delayed-after", "retried", "rescheduled", "no-ttl"]))
     case = {"broker": broker, "seed": draw(st.integers(0, 2**16)), "ttl_us": ttl_us, "kind": kind,
             "eps_us": draw(EPS), "phase_us": draw(st.integers(0, 999_999)), "age_us": draw(st.integers(0, ttl_us // 2)),
@@ -151,7 +154,7 @@ def idle_case(draw, broker):
     """The consumer has been polling an empty queue for some time when a message arrives that expired a moment ago (or is still
     clearly alive).  Whatever the consumer cached while idle, the expired one is not handed out."""
     return {"broker": broker, "seed": draw(st.integers(0, 2**16)), "idle_us": draw(st.integers(50_000, 3_500_000)),
-            "ttl_us": draw(st.sampled_from([1_000_000, 2_500_000, 60_000_000])),
+            "ttl_us": draw(st.sampled_from([1_000_000, 2_500_000, 60_000_000, 0])),
             # how long ago it expired at the moment it is enqueued (negative: so much is still left)
             "expired_by_us": draw(st.one_of(st.integers(1_000, 1_500_000), st.sampled_from([2_000, 300_000, 900_000, -8_000_000]))),
             "prio": draw(st.sampled_from([0, 5, 9])), "phase_us": draw(st.integers(0, 999_999))}
